@@ -1,5 +1,6 @@
 import Judge.Oracles
 import Judge.Lookups
+import Judge.Iters
 import OVM.Tet.Kernel
 import Std.Data.HashMap
 import Std.Data.HashSet
@@ -41,7 +42,7 @@ def auxStep (pre : Kernel) (s : Step) : Option Kernel :=
     some { pre with props := { v := rm p.v, e := rm p.e, he := rm p.he, f := rm p.f, hf := rm p.hf, c := rm p.c, m := rm p.m } }
   | _, _ => none
 
-def judgeStep (kind : String) (pre : Obs) (s : Step) : List Finding := Id.run do
+def judgeStep (kind : String) (pre : Obs) (s : Step) (fansOk : Bool) : List Finding := Id.run do
   let mut out : List Finding := []
   match s.crashed with
   | some why => return [Finding.oracle "CRASH" s!"{s.op} {s.args}: {why}"]
@@ -70,12 +71,25 @@ def judgeStep (kind : String) (pre : Obs) (s : Step) : List Finding := Id.run do
     if !s.post.k.cacheInvVB then out := out ++ [Finding.oracle "C01" "outgoing-halfedge cache differs from the brute-force scan"]
     if !s.post.k.cacheInvEB then out := out ++ [Finding.oracle "C01" "halfedge->halfface cache differs from the brute-force scan"]
     if !s.post.k.cacheInvFB then out := out ++ [Finding.oracle "C01" "halfface->cell cache differs from the brute-force scan"]
+    if fansOk then out := out ++ checkFans s.post.k
     for q in s.post.q do
       out := out ++ checkQuery s.post.k q
       if q.name.startsWith "l" then out := out ++ checkLookup s.post.k q
+      if q.name.startsWith "it" then out := out ++ checkIter s.post.k q
   out := out ++ checkStepOracles kind pre s
   out := out ++ checkTwin s.post
-  return out
+  -- one line per distinct finding and step
+  let mut seen : List String := []
+  let mut res : List Finding := []
+  for f in out do
+    let key := match f with
+      | .xfail fld _ _ => "X" ++ fld
+      | .oracle p w => "O" ++ p ++ (if w.startsWith "F10:" then w else toString (hash w))
+      | .drift fld => "D" ++ fld
+    if !seen.contains key then
+      seen := key :: seen
+      res := res ++ [f]
+  return res
 
 def fmt (t : String) (k : Nat) (op : String) : Finding → String
   | .xfail f m i => s!"XFAIL trace={t} step={k} op={op} field={f} model={m} impl={i}"
@@ -103,8 +117,12 @@ def main (args : List String) : IO UInt32 := do
       let kind := kindOfHeader tr.header
       let mut pre := tr.init
       let mut idx := 0
+      -- C09 excludes histories containing set_face / set_cell (they do not re-order)
+      let mut fansOk := true
       for s in tr.steps do
-        let fs := judgeStep kind pre s
+        if s.op == "set_face" || s.op == "set_cell" || s.op == "set_edge" then fansOk := false
+        if s.op == "clear" then fansOk := true
+        let fs := judgeStep kind pre s fansOk
         for f in fs do
           IO.println (fmt t idx s.op f)
           match f with | .drift _ => pure () | _ => nFind := nFind + 1
